@@ -1084,3 +1084,12 @@ def r9(cx):
 
 RS.explanation += (' The escape state of the pattern character iterator survives quoting characters: a backslash from an expansion escapes the '
                    'next character of the pattern, not an empty pair of quotes (R9, sibling of C04.R9).')
+
+
+# --- wave 5 (seed C05-s10): the directory scan needs a descriptor; the simulated opendir must take the lowest free one, as open does
+from rules.C19 import r28 as _c19_lowest_free_descriptor
+RS.rules.append(Rule('C05.R10', 'K-SIBLING', 'pathname expansion never omits a match because the directory scan could not get a descriptor '
+                     'that was free: the simulated opendir behind search_dir allocates the lowest free descriptor (as a real open + '
+                     'fdopendir does), not one above a constant bound - under `ulimit -n 10` with descriptors 3-9 free, `dir/*` still '
+                     'lists the directory (C19.R28)', _c19_lowest_free_descriptor))
+RS.explanation += ' The simulated opendir takes the lowest free descriptor, so a low descriptor limit does not hide matches (R10 = C19.R28).'
